@@ -44,6 +44,10 @@ TRUSTED_BASE = [
     "mirror of a sub-interface's service port is therefore listed (the safe side), modelled the same way",
     "LogCollector 'sites'/'facilities' are Python sets, modelled as duplicate-free lists and compared sorted; "
     "LogCollector.__str__ (set iteration order) is not modelled",
+    "the model's collection is a function of the slice as presented; that what a LIVE topology object presents after an edit "
+    "(get_sliver() of a node whose components changed, the lookup views) is the slice as it is now - nothing kept from an earlier "
+    "collection - is H_present over time: checked by the edit histories (collect, edit, collect again on the same object, each "
+    "stage against the harness's own description of the edited slice and against the model serialised from it), not proved",
 ]
 ASSUMPTIONS = [
     "a topology *object* handed to the collectors has been validated (Topology.validate() records the site of single-site "
@@ -62,7 +66,12 @@ RULE = ("slices of 0..7 nodes/services/facilities with several PortMirror/FABNet
         "the real fold on stand-in topology containers of real slivers, through the public sliver dispatch, and through real "
         "ExperimentTopology objects (related names for sites, nodes, components, service-port labels and mirrored ports; services "
         "on sub-interfaces; nodes without components; several creation orders; service sites declared or left to validate()) "
-        "collected three ways: validated object, ASM serialised after validate(), ASM serialised before it; "
+        "collected three ways: validated object, ASM serialised after validate(), ASM serialised before it; edit histories on ONE "
+        "topology object (component attached / detached with and without its own service, node / service / facility / switch added "
+        "and removed, node renamed / resized / moved, service bandwidth and service-port label changed; 2 deterministic histories "
+        "+ random ones of 5..8 edits): after the build and after EVERY edit validate() and a collection through every path "
+        "(topology object, Node / service / component handles, model serialised before and after validate()), each judged "
+        "against the description of the slice as it is at that stage and run through the Lean model; "
         "non-trivial = >= 2 services needing a site attribute; distinct by (canonical slice in stored order, entry point)")
 
 RESOURCE_CATEGORY = "urn:oasis:names:tc:xacml:3.0:attribute-category:resource"
@@ -649,27 +658,32 @@ def _build_into(t, ts, node_order, svc_order, validate=True):
         c = comps[(ref[0], ref[1])]
         return sorted(c.interface_list, key=lambda x: x.name)[ref[2]]
     for si in svc_order:
-        s = ts["svcs"][si]
-        ifs = [iface(r) for r in s["ifs"]]
-        if s.get("sub"):
-            ifs = [x.add_child_interface(name="sub%d" % si, labels=Labels(vlan=str(100 + si))) for x in ifs]
-        kw = {}
-        if s["bw"] is not None:
-            kw["capacities"] = Capacities(bw=s["bw"])
-        if s.get("decl") and s["ifs"]:
-            # site declared by the user (must be the one validate() would infer); otherwise inferred by validate()
-            kw["site"] = ts["nodes"][s["ifs"][0][0]]["site"]
-        if s["t"] == "PortMirror":
-            t.add_port_mirror_service(name=s["name"], from_interface_name=s["mp"], to_interface=ifs[0], **kw)
-        else:
-            extra = [facs[s["fac"]].interface_list[0]] if s["fac"] is not None else []
-            t.add_network_service(name=s["name"], nstype=ServiceType[s["t"]], interfaces=ifs + extra, **kw)
-        for i, ln in zip(ifs, s["labels"]):
-            if ln is not None:
-                i.get_peers()[0].set_property("labels", Labels(local_name=ln))
+        _add_service(t, ts, si, ts["svcs"][si], iface, facs)
     if validate:
         t.validate()
     return t
+
+
+def _add_service(t, ts, si, s, iface, facs):
+    from fim.slivers.capacities_labels import Capacities, Labels
+    from fim.slivers.network_service import ServiceType
+    ifs = [iface(r) for r in s["ifs"]]
+    if s.get("sub"):
+        ifs = [x.add_child_interface(name="sub%d" % si, labels=Labels(vlan=str(100 + si))) for x in ifs]
+    kw = {}
+    if s["bw"] is not None:
+        kw["capacities"] = Capacities(bw=s["bw"])
+    if s.get("decl") and s["ifs"]:
+        # site declared by the user (must be the one validate() would infer); otherwise inferred by validate()
+        kw["site"] = ts["nodes"][s["ifs"][0][0]]["site"]
+    if s["t"] == "PortMirror":
+        t.add_port_mirror_service(name=s["name"], from_interface_name=s["mp"], to_interface=ifs[0], **kw)
+    else:
+        extra = [facs[s["fac"]].interface_list[0]] if s["fac"] is not None else []
+        t.add_network_service(name=s["name"], nstype=ServiceType[s["t"]], interfaces=ifs + extra, **kw)
+    for i, ln in zip(ifs, s["labels"]):
+        if ln is not None:
+            i.get_peers()[0].set_property("labels", Labels(local_name=ln))
 
 
 def model_of_tspec(ts, t):
@@ -681,7 +695,8 @@ def model_of_tspec(ts, t):
                          "comps": [models[c["model"]][0] for c in n["comps"]]}
         for c in n["comps"]:
             for suffix, st in models[c["model"]][2]:
-                nm = "%s-%s%s" % (n["name"], c["name"], suffix)
+                # (named after the node's name at the time the component was attached: a later rename leaves it)
+                nm = "%s-%s%s" % (c.get("owner0", n["name"]), c["name"], suffix)
                 sd[nm] = _sv(nm, st, n["site"])
     if ts["switch"]:
         sw = ts["switch"]
@@ -759,8 +774,9 @@ def collect_asm(ser):
         asm.delete_graph()      # the importer stored the ASM under a fresh GraphID
 
 
-def collect_real(t, with_asm=True):
-    """(authz reply, log reply) from the topology object and from its serialised ASM, through the public entry point."""
+def collect_real(t, with_asm=True, kept=None):
+    """(authz reply, log reply) from the topology object and from its serialised ASM, through the public entry point.
+    `kept`: {node id: Node handle} obtained at an EARLIER stage of an edit history - long-lived handles are collected too."""
     from fim.authz.attribute_collector import ResourceAuthZAttributes
     from fim.logging.log_collector import LogCollector
     from fim.graph.slices.networkx_asm import NetworkXGraphImporter, NetworkXASMFactory
@@ -799,6 +815,17 @@ def collect_real(t, with_asm=True):
         member(lc, ns)
     out["authz_members"] = _authz_reply(az)
     out["log_members"] = _log_reply(lc)
+    if kept is not None:
+        az = ResourceAuthZAttributes()
+        lc = LogCollector()
+        for n in t.nodes.values():
+            member(az, kept.get(n.node_id, n))
+            member(lc, kept.get(n.node_id, n))
+        for ns in t.network_services.values():
+            member(az, ns)
+            member(lc, ns)
+        out["authz_members_kept"] = _authz_reply(az)
+        out["log_members_kept"] = _log_reply(lc)
     lc = LogCollector()
     for i, n in enumerate(t.nodes.values()):
         for j, c in enumerate(n.components.values()):
@@ -1072,11 +1099,314 @@ def run_tspec(ts, rng, k, with_asm=True):
     return runs
 
 
+# --------------------------------------------------------------------------
+# edit histories: collect -> edit -> collect on the SAME topology object
+
+def _norm_ts(ts):
+    import copy
+    ts = copy.deepcopy(ts)
+    for s in ts["svcs"]:
+        s["ifs"] = [tuple(x) for x in s["ifs"]]
+    ts["burnt"] = [tuple(x) for x in ts.get("burnt", [])]
+    return ts
+
+
+def _free_ports(ts):
+    models = probe_models()
+    used = {tuple(r) for s in ts["svcs"] for r in s["ifs"]} | {tuple(r) for r in ts.get("burnt", [])}
+    return [(i, j, k) for i, n in enumerate(ts["nodes"]) for j, c in enumerate(n["comps"]) for k in range(models[c["model"]][1])
+            if (i, j, k) not in used]
+
+
+def _plain_node(n):
+    models = probe_models()
+    return all(models[c["model"]][1] == 0 for c in n["comps"])
+
+
+def edit_spec(ts, e):
+    """the edit applied to the description (in place)"""
+    op = e["op"]
+    if op == "add_comp":
+        n = ts["nodes"][e["node"]]
+        n["comps"].append({"name": e["name"], "model": e["model"], "owner0": n["name"]})
+    elif op == "rm_comp":
+        ts["nodes"][e["node"]]["comps"].pop()
+    elif op == "add_node":
+        ts["nodes"].append({"name": e["name"], "site": e["site"], "caps": e["caps"], "hints": None, "comps": []})
+    elif op == "rm_node":
+        ts["nodes"].pop()
+    elif op == "add_svc":
+        ts["svcs"].append(dict(e["svc"], ifs=[tuple(r) for r in e["svc"]["ifs"]]))
+    elif op == "rm_svc":
+        gone = ts["svcs"].pop(e["svc"])
+        ts.setdefault("burnt", []).extend(tuple(r) for r in gone["ifs"])
+    elif op == "site":
+        ts["nodes"][e["node"]]["site"] = e["site"]
+    elif op == "caps":
+        ts["nodes"][e["node"]]["caps"] = e["caps"]
+        ts["nodes"][e["node"]]["hints"] = None
+    elif op == "rename":
+        n = ts["nodes"][e["node"]]
+        for c in n["comps"]:
+            c.setdefault("owner0", n["name"])
+        n["name"] = e["name"]
+    elif op == "bw":
+        ts["svcs"][e["svc"]]["bw"] = e["bw"]
+    elif op == "label":
+        ts["svcs"][e["svc"]]["labels"] = [e["label"]]
+    elif op == "add_fac":
+        ts["facs"].append({"name": e["name"], "site": e["site"], "bw": 10})
+    elif op == "rm_fac":
+        ts["facs"].pop()
+    elif op == "add_switch":
+        ts["switch"] = {"name": e["name"], "site": e["site"]}
+    elif op == "rm_switch":
+        ts["switch"] = None
+    else:
+        raise ValueError(op)
+
+
+def edit_topo(t, ts, e):
+    """the edit applied to the live topology; `ts` describes it BEFORE the edit"""
+    from fim.slivers.capacities_labels import Capacities, Labels
+    from fim.slivers.component_catalog import ComponentModelType
+    op = e["op"]
+
+    def node(i):
+        return t.nodes[ts["nodes"][i]["name"]]
+
+    def iface(ref):
+        n = ts["nodes"][ref[0]]
+        c = t.nodes[n["name"]].components[n["comps"][ref[1]]["name"]]
+        return sorted(c.interface_list, key=lambda x: x.name)[ref[2]]
+    if op == "add_comp":
+        node(e["node"]).add_component(name=e["name"], model_type=ComponentModelType[e["model"]])
+    elif op == "rm_comp":
+        node(e["node"]).remove_component(name=ts["nodes"][e["node"]]["comps"][-1]["name"])
+    elif op == "add_node":
+        t.add_node(name=e["name"], site=e["site"], **({"capacities": Capacities(core=e["caps"][0], ram=e["caps"][1], disk=e["caps"][2])}
+                                                      if e["caps"] is not None else {}))
+    elif op == "rm_node":
+        t.remove_node(name=ts["nodes"][-1]["name"])
+    elif op == "add_svc":
+        _add_service(t, ts, len(ts["svcs"]) + 50, e["svc"], iface, [])
+    elif op == "rm_svc":
+        t.remove_network_service(name=ts["svcs"][e["svc"]]["name"])
+    elif op == "site":
+        node(e["node"]).site = e["site"]
+    elif op == "caps":
+        node(e["node"]).set_property("capacities", Capacities(core=e["caps"][0], ram=e["caps"][1], disk=e["caps"][2]))
+        if ts["nodes"][e["node"]].get("hints") is not None:
+            node(e["node"]).unset_property("capacity_hints")
+    elif op == "rename":
+        node(e["node"]).rename(e["name"])
+    elif op == "bw":
+        t.network_services[ts["svcs"][e["svc"]]["name"]].set_property("capacities", Capacities(bw=e["bw"]))
+    elif op == "label":
+        t.network_services[ts["svcs"][e["svc"]]["name"]].interface_list[0].set_property("labels", Labels(local_name=e["label"]))
+    elif op == "add_fac":
+        t.add_facility(name=e["name"], site=e["site"], capacities=Capacities(bw=10))
+    elif op == "rm_fac":
+        t.remove_facility(name=ts["facs"][-1]["name"])
+    elif op == "add_switch":
+        t.add_switch(name=e["name"], site=e["site"])
+    elif op == "rm_switch":
+        t.remove_switch(name=ts["switch"]["name"])
+    else:
+        raise ValueError(op)
+
+
+def gen_edits(ts, rng, n):
+    """n edits of a slice, each applicable to the slice as the earlier ones left it: components attached to / detached from
+    a node (separate graph nodes: the node's own properties stay as they are), nodes, services on free ports, facilities and
+    the switch added / removed, a node renamed / resized / moved to another site (a node without ports: validate() refuses
+    a move away from under inferred service sites), a service's bandwidth and a service port's label changed."""
+    models = probe_models()
+    nic = [m for m, (_, k, _) in models.items() if k > 0]
+    dedicated = [m for m in nic if not m.startswith("SharedNIC")]
+    plain = [m for m, (_, k, _) in models.items() if k == 0]
+    ts = _norm_ts(ts)
+    edits = []
+    for step in range(n):
+        cand = []
+        used_nodes = {r[0] for s in ts["svcs"] for r in s["ifs"]}
+        for i, nd in enumerate(ts["nodes"]):
+            names = {c["name"] for c in nd["comps"]}
+            fresh = [x for x in T_COMP_FAM + ["h%d" % step] if x not in names]
+            cand += [("add_comp", i, fresh[0])] * 3
+            if nd["comps"] and not any(tuple(r[:2]) == (i, len(nd["comps"]) - 1) for s in ts["svcs"] for r in s["ifs"]) \
+                    and not any(tuple(r[:2]) == (i, len(nd["comps"]) - 1) for r in ts.get("burnt", [])):
+                cand += [("rm_comp", i)] * 2
+            cand.append(("caps", i))
+            if _plain_node(nd) and i not in used_nodes:
+                cand.append(("site", i))
+            cand.append(("rename", i))
+        free_names = [x for x in T_NODE_FAM + ["hn%d" % step] if x not in {nd["name"] for nd in ts["nodes"]}]
+        cand.append(("add_node",))
+        if len(ts["nodes"]) > 1 and (len(ts["nodes"]) - 1) not in used_nodes and \
+                not any(r[0] == len(ts["nodes"]) - 1 for r in ts.get("burnt", [])):
+            cand.append(("rm_node",))
+        free = _free_ports(ts)
+        if free:
+            cand += [("add_svc",)] * 2
+        user = [i for i, s in enumerate(ts["svcs"]) if s.get("fac") is None]
+        if user:
+            cand += [("rm_svc",), ("bw",)]
+            if any(ts["svcs"][i]["ifs"] and not ts["svcs"][i].get("sub") and ts["svcs"][i]["t"] != "PortMirror" for i in user):
+                cand.append(("label",))
+        cand.append(("add_fac",) if len(ts["facs"]) < 3 else ("caps", 0))
+        if ts["facs"] and not any(s.get("fac") == len(ts["facs"]) - 1 for s in ts["svcs"]):
+            cand.append(("rm_fac",))
+        cand.append(("rm_switch",) if ts["switch"] else ("add_switch",))
+        c = rng.choice(cand)
+        op = c[0]
+        sites = sorted({nd["site"] for nd in ts["nodes"]}) + [rng.choice(T_SITE_FAM)]
+        if op == "add_comp":
+            e = {"op": op, "node": c[1], "name": c[2], "model": rng.choice(plain if rng.random() < 0.6 else dedicated + nic)}
+        elif op == "rm_comp":
+            e = {"op": op, "node": c[1]}
+        elif op == "caps":
+            e = {"op": op, "node": c[1], "caps": [rng.choice([1, 2, 4, 8]), rng.choice([8, 16, 32]), rng.choice([10, 100, 500])]}
+        elif op == "site":
+            e = {"op": op, "node": c[1], "site": rng.choice(sites)}
+        elif op == "rename":
+            e = {"op": op, "node": c[1], "name": free_names[0]}
+        elif op == "add_node":
+            e = {"op": op, "name": free_names[0], "site": rng.choice(sites),
+                 "caps": None if rng.random() < 0.2 else [rng.choice([1, 2, 4]), rng.choice([8, 16]), rng.choice([10, 100])]}
+        elif op == "add_svc":
+            ded = [x for x in free if not ts["nodes"][x[0]]["comps"][x[1]]["model"].startswith("SharedNIC")]
+            q = rng.random()
+            if ded and q < 0.35:
+                labelled = [s["labels"][0] for s in ts["svcs"] if s["labels"] and s["labels"][0] is not None and not s.get("sub")]
+                mp = rng.choice(labelled) if labelled and rng.random() < 0.5 else rng.choice(T_PORT_FAM)
+                sv = {"name": "hpm%d" % step, "t": "PortMirror", "ifs": [ded[0]], "labels": [None], "bw": rng.choice([None, 5]), "mp": mp,
+                      "fac": None, "decl": False}
+            elif q < 0.7:
+                sv = {"name": "hex%d" % step, "t": rng.choice(["FABNetv4Ext", "FABNetv6Ext"]), "ifs": [rng.choice(free)], "labels": [None],
+                      "bw": rng.choice([None, 2]), "mp": None, "fac": None, "decl": rng.random() < 0.3}
+            else:
+                sv = {"name": "hbr%d" % step, "t": "L2Bridge", "ifs": [rng.choice(free)], "labels": [rng.choice(T_PORT_FAM + [None])],
+                      "bw": rng.choice([None, 1, 10]), "mp": None, "fac": None, "decl": rng.random() < 0.3}
+            e = {"op": op, "svc": sv}
+        elif op == "rm_svc":
+            e = {"op": op, "svc": rng.choice(user)}
+        elif op == "bw":
+            e = {"op": op, "svc": rng.choice(user), "bw": rng.choice([1, 3, 25, 100])}
+        elif op == "label":
+            ok = [i for i in user if ts["svcs"][i]["ifs"] and not ts["svcs"][i].get("sub") and ts["svcs"][i]["t"] != "PortMirror"]
+            e = {"op": op, "svc": rng.choice(ok), "label": rng.choice(T_PORT_FAM)}
+        elif op == "add_fac":
+            nm = [x for x in ["F1", "F10", "FF", "hf%d" % step] if x not in {f["name"] for f in ts["facs"]}][0]
+            e = {"op": op, "name": nm, "site": rng.choice(sites + ["D"])}
+        elif op == "add_switch":
+            e = {"op": op, "name": "sw0", "site": rng.choice(sites)}
+        else:
+            e = {"op": op}
+        edit_spec(ts, e)
+        edits.append(e)
+    return edits
+
+
+def corner_histories():
+    """(initial slice, edits): components attached to and detached from nodes that were collected before, and nothing else
+    touched in between; a NIC (with its own service) attached and detached; a node's own property changed between"""
+    two = {"name": "c0", "model": "SmartNIC_ConnectX_6"}
+    base = {"nodes": [{"name": "n1", "site": "RENC", "caps": [2, 8, 10], "hints": None, "comps": [dict(two)]},
+                      {"name": "n2", "site": "UKY", "caps": [4, 16, 100], "hints": None, "comps": [dict(two, name="c1")]}],
+            "switch": None, "facs": [], "svcs": []}
+    return [
+        (base, [{"op": "add_comp", "node": 0, "name": "gpu1", "model": "GPU_RTX6000"},
+                {"op": "add_comp", "node": 0, "name": "fpga1", "model": "FPGA_Xilinx_U280"},
+                {"op": "add_comp", "node": 1, "name": "nvme1", "model": "NVME_P4510"},
+                {"op": "rm_comp", "node": 0}, {"op": "rm_comp", "node": 1},
+                {"op": "add_comp", "node": 1, "name": "nic9", "model": "SharedNIC_ConnectX_6"},
+                {"op": "caps", "node": 0, "caps": [8, 32, 500]}, {"op": "rm_comp", "node": 1}]),
+        ({"nodes": [{"name": "n1", "site": "A", "caps": None, "hints": "fabric.c4.m16.d10", "comps": []}], "switch": None, "facs": [], "svcs": []},
+         [{"op": "add_comp", "node": 0, "name": "c1", "model": "SmartNIC_ConnectX_6"},
+          {"op": "add_svc", "svc": {"name": "hex", "t": "FABNetv4Ext", "ifs": [[0, 0, 0]], "labels": [None], "bw": 2, "mp": None,
+                                    "fac": None, "decl": False}},
+          {"op": "add_node", "name": "n10", "site": "AB", "caps": [1, 8, 10]}, {"op": "add_comp", "node": 1, "name": "c1", "model": "GPU_A30"},
+          {"op": "rename", "node": 1, "name": "nn"}, {"op": "site", "node": 1, "site": "ABC"}, {"op": "add_fac", "name": "F1", "site": "D"},
+          {"op": "rm_svc", "svc": 0}, {"op": "rm_node"}, {"op": "add_switch", "name": "sw0", "site": "A"}, {"op": "rm_fac"}]),
+    ]
+
+
+def run_history(ts0, edits, with_asm=True):
+    """ONE topology object: build, validate, collect through every path; then after every edit validate and collect again
+    through every path (the topology object itself, Node / service / component handles, the serialised model before and
+    after validate()).  -> [(description at that stage, run)]; each stage is judged against the description as it is then."""
+    import copy
+    ts = _norm_ts(ts0)
+    stages = []
+    no, so = list(range(len(ts["nodes"]))), list(range(len(ts["svcs"])))
+
+    def case(i):
+        return {"kind": "history", "tspec": ts0, "edits": edits[:i], "stage": i}
+    try:
+        t = build_topology(ts, no, so, validate=False)
+    except Exception as e:
+        return [(ts, {"node_order": no, "svc_order": so, "build_error": err_kind(e), "case": case(0)})]
+    kept = {}
+    try:
+        for i in range(len(edits) + 1):
+            run = {"node_order": no, "svc_order": so, "case": case(i)}
+            try:
+                if i > 0:
+                    edit_topo(t, ts, edits[i - 1])
+                    ts = copy.deepcopy(ts)
+                    edit_spec(ts, edits[i - 1])
+                pre = t.serialize()
+                t.validate()
+            except Exception as e:
+                run["build_error"] = "edit:%s:%s" % (edits[i - 1]["op"] if i else "build", err_kind(e))
+                stages.append((ts, run))
+                break
+            try:
+                run["slice"] = model_of_tspec(ts, t)
+                run["raw"] = raw_of_tspec(ts, run["slice"])
+                # Node handles live as long as user code keeps them: each node is also collected through the handle
+                # obtained at the first stage it was there
+                cur = {n.node_id: n for n in t.nodes.values()}
+                kept = {i: kept.get(i, h) for i, h in cur.items()}
+                run["out"] = collect_real(t, with_asm, kept)
+                if with_asm:
+                    run["out"]["authz_asm_pre"], run["out"]["log_asm_pre"] = collect_asm(pre)
+            except Exception as e:
+                run["collect_error"] = "%s: %s" % (err_kind(e), e)
+            stages.append((ts, run))
+    finally:
+        dispose(t)
+    return stages
+
+
+def history_runs(ctx, n=None, steps=None):
+    """the edit histories of this check run, shared by correspondence and oracle -> [(description, [run])] like topo_runs"""
+    key = ("hist", n, steps)
+    cache = ctx.__dict__.setdefault("_c11_topo", {})
+    if key not in cache:
+        rng = ctx.sub_rng("history")
+        hs = [(c["tspec"], c["edits"]) for _, c in load_corpus() if "edits" in c] + corner_histories()
+        for i in range(n if n is not None else ctx.scale(4, 30)):
+            ts = gen_tspec(rng, 1 + i % 2)
+            hs.append((ts, gen_edits(ts, rng, steps or ctx.scale(5, 8))))
+        out = []
+        for ts0, edits in hs:
+            for ts, run in run_history(ts0, edits):
+                out.append((ts, [run]))
+        cache[key] = out
+    return cache[key]
+
+
 def judge_tspec(ts, runs, res, with_asm=True):
     """Topology vs ASM; completeness / tallies against the description; equality across creation orders."""
     rows = []
     for run in runs:
-        case = {"kind": "topology", "tspec": ts, "node_order": run["node_order"], "svc_order": run["svc_order"]}
+        case = run.get("case") or {"kind": "topology", "tspec": ts, "node_order": run["node_order"], "svc_order": run["svc_order"]}
+        if case["kind"] == "history":
+            res.count("history:stage" if "out" in run else "history:stopped:" + run.get("build_error", "collect"))
+            if case["edits"]:
+                res.count("history:edit:" + case["edits"][-1]["op"])
         if "build_error" in run:
             res.count("topo-build-failed:" + run["build_error"])
             continue
@@ -1125,6 +1455,15 @@ def judge_tspec(ts, runs, res, with_asm=True):
                 res.violation("C11:raises:" + b[1], "PDP request raised (member-level sources)", mcase)
             check_log(msl, out["log_members"], res, mcase, "members")
             check_log(components_only(sl), out["log_components"], res, dict(case, entry="components"), "components")
+        if "authz_members_kept" in out:
+            msl, mcase = for_dispatch(sl), dict(case, entry="members-kept")
+            b = out["authz_members_kept"]
+            res.count("history:kept-handles")
+            if isinstance(b, tuple):
+                check_authz(msl, b[0], b[1], b[2], res, mcase, "members-kept")
+            else:
+                res.violation("C11:raises:" + b[1], "PDP request raised (Node handles kept from an earlier stage)", mcase)
+            check_log(msl, out["log_members_kept"], res, mcase, "members-kept")
         rows.append((sl, a0, out["log_topo"]))
     if rows:
         check_orders(rows, res, "topology", "topo")
@@ -1160,7 +1499,7 @@ def _cases(ctx, tag, n, size=4):
 
 def _tcases(ctx, tag, n):
     rng = ctx.sub_rng(tag)
-    out = [c["tspec"] for _, c in load_corpus() if "tspec" in c] + corner_tspecs()
+    out = [c["tspec"] for _, c in load_corpus() if "tspec" in c and "edits" not in c] + corner_tspecs()
     for i in range(n):
         out.append(gen_tspec(rng, 1 + i % 3))
     return out, rng
@@ -1218,7 +1557,7 @@ def correspondence(ctx, res):
     else:
         ctx.notes.append("pre-repair collector not available from git; collectLegacy not compared")
     n_exact = len(reqs)
-    for ts, runs in topo_runs(ctx):
+    for ts, runs in topo_runs(ctx) + history_runs(ctx):
         for run in runs:
             if "out" not in run:
                 res.count("topo-not-collected")
@@ -1320,7 +1659,7 @@ def oracle(ctx, res, n=None, nt=None):
         eval_slice(sl, rng, res, "fold", 24)
         eval_slice(sl, rng, res, "dispatch", 4)
         eval_shared(sl, res)
-    for ts, runs in topo_runs(ctx, nt):
+    for ts, runs in topo_runs(ctx, nt) + history_runs(ctx, None if nt is None else max(4, nt // 3)):
         for run in runs[:1]:
             if "slice" in run:
                 _count_relations(res, run["slice"], "topology")
@@ -1363,6 +1702,9 @@ def replay(ctx, payload):
         full_request(r)
     elif c.get("entry") == "shared-slivers":
         eval_shared(c["slice"], r)
+    elif c.get("kind") == "history":
+        for ts, run in run_history(c["tspec"], c["edits"]):
+            judge_tspec(ts, [run], r)
     elif c.get("kind") == "topology":
         ts = c["tspec"]
         for s in ts["svcs"]:
